@@ -98,6 +98,7 @@ pub fn parse_action(s: &str) -> Option<Action> {
         "RequestSnap" => Action::RequestSnap(n(0)?),
         "SetCap" => Action::SetCap(n(0)?, n(1)?, n(2)?),
         "ArmFetch" => Action::ArmFetch(n(0)?),
+        "ArmSnapBusy" => Action::ArmSnapBusy(n(0)?),
         "Fetched" => Action::Fetched(n(0)?),
         "Settle" => Action::Settle,
         "LockTick" => Action::LockTick,
